@@ -379,6 +379,106 @@ def runOps (c : Cfg) : MSt → List Op → Option (MSt × List (Option Out) × L
       (runOps c s1 ops).map fun (s', outs, lg) =>
         (s', some (mo.abs (s.get op.reg) (s1.get op.reg)) :: outs, l1.add lg)
 
+/-! ### allocator instances
+
+Every register's tree is constructed with its own allocator instance (the harness tags the instances; copies of
+an instance compare equal, different tags compare unequal).  The copy constructor and `operator=` take the
+source's instance (`allocator_ = other.get_allocator()`, unconditionally — no `allocator_traits` propagation
+switches), `BTree::swap` exchanges them, everything else keeps the instance.  `stepA` is `stepOp` together with
+the instance each register holds and the operation's ledger split by the instance each part goes through. -/
+
+/-- the machine state together with the allocator instance each register's tree currently holds
+(`allocator_`; instances are identified by the tag the harness gives them: copies compare equal,
+different tags compare unequal) -/
+structure ASt where
+  m : MSt := {}
+  a0 : Nat := 1
+  a1 : Nat := 2
+
+def ASt.arena (s : ASt) (r : Nat) : Nat := if r = 0 then s.a0 else s.a1
+
+def ASt.setArena (s : ASt) (r : Nat) (a : Nat) : ASt := if r = 0 then { s with a0 := a } else { s with a1 := a }
+
+/-- the allocator instance a register's container is constructed with (`cfg`, range constructor) -/
+def homeArena (r : Nat) : Nat := if r = 0 then 1 else 2
+
+/-- the nodes `operator=` allocates for the copy of `o` (after `clear()`) -/
+def assignAlloc (o : T) : Ledger :=
+  if o.stats.size ≠ 0 then
+    match o.root with
+    | some _ => { leafAlloc := o.nLeaves, innerAlloc := o.nInner }
+    | none => {}
+  else {}
+
+/-- the ledger of an operation split by the allocator instance each part goes through, in execution
+order: `(arena, nodes obtained from it / returned to it)` -/
+def arenaParts (c : Cfg) (s : ASt) (op : Op) (lg : Ledger) : List (Nat × Ledger) :=
+  match op with
+  | .rctor r es =>
+    -- the old container is destroyed, the new one is constructed with the register's own instance
+    [(s.arena r, (clear (s.m.get r)).2),
+     (homeArena r, ((insertMany (c.params (s.m.mode r)) es {} {}).map Prod.snd).getD {})]
+  | .copy r q => [(s.arena r, (clear (s.m.get r)).2), (s.arena q, (copyCtor (s.m.get q)).2)]
+  | .assign r q =>
+    if q = r then [] else [(s.arena r, (clear (s.m.get r)).2), (s.arena q, assignAlloc (s.m.get q))]
+  | .swap r q =>
+    let a := s.m.get r
+    let tmp := copyCtor a
+    if q = r then
+      [(s.arena r, tmp.2), (s.arena r, (clear a).2), (s.arena r, assignAlloc tmp.1), (s.arena r, (clear tmp.1).2)]
+    else
+      let b := s.m.get q
+      [(s.arena r, tmp.2), (s.arena r, (clear a).2), (s.arena q, assignAlloc b), (s.arena q, (clear b).2),
+       (s.arena r, assignAlloc tmp.1), (s.arena r, (clear tmp.1).2)]
+  | .tswap _ _ => []
+  | op => [(s.arena op.reg, lg)]
+
+/-- which allocator instance each register holds afterwards: the copy constructor and `operator=` take
+the source's (`allocator_ = other.get_allocator()`, unconditionally), the swaps exchange them -/
+def arenaNext (s : ASt) (m' : MSt) (op : Op) : ASt :=
+  match op with
+  | .rctor r _ => ({ s with m := m' }).setArena r (homeArena r)
+  | .copy r q => ({ s with m := m' }).setArena r (s.arena q)
+  | .assign r q => if q = r then { s with m := m' } else ({ s with m := m' }).setArena r (s.arena q)
+  | .swap r q | .tswap r q =>
+    if q = r then { s with m := m' } else (({ s with m := m' }).setArena r (s.arena q)).setArena q (s.arena r)
+  | _ => { s with m := m' }
+
+def stepA (c : Cfg) (s : ASt) (op : Op) : Res (ASt × MOut × Ledger × List (Nat × Ledger)) :=
+  match stepOp c s.m op with
+  | .bad => .bad
+  | .ub => .ub
+  | .ok (m', mo, lg) => .ok (arenaNext s m' op, mo, lg, arenaParts c s op lg)
+
+/-- what went through allocator instance `a` -/
+def sumFor (a : Nat) : List (Nat × Ledger) → Ledger
+  | [] => {}
+  | p :: ps => if p.1 = a then p.2.add (sumFor a ps) else sumFor a ps
+
+/-- everything that went through any allocator instance -/
+def sumAll : List (Nat × Ledger) → Ledger
+  | [] => {}
+  | p :: ps => p.2.add (sumAll ps)
+
+def ASt.liveL (s : ASt) (a : Nat) : Nat := (if s.a0 = a then s.m.t0.nLeaves else 0) + (if s.a1 = a then s.m.t1.nLeaves else 0)
+
+def ASt.liveI (s : ASt) (a : Nat) : Nat := (if s.a0 = a then s.m.t0.nInner else 0) + (if s.a1 = a then s.m.t1.nInner else 0)
+
+/-- per allocator instance: nodes of the trees holding it before + obtained from it = nodes after + returned to it -/
+def ABal (s s' : ASt) (parts : List (Nat × Ledger)) : Prop :=
+  ∀ a, s.liveL a + (sumFor a parts).leafAlloc = s'.liveL a + (sumFor a parts).leafFree ∧
+       s.liveI a + (sumFor a parts).innerAlloc = s'.liveI a + (sumFor a parts).innerFree
+
+/-- a history on the machine with allocator instances: final state and everything that went through the
+allocators, tagged with the instance -/
+def runA (c : Cfg) : ASt → List Op → Option (ASt × List (Nat × Ledger))
+  | s, [] => some (s, [])
+  | s, op :: ops =>
+    match stepA c s op with
+    | .ub => none
+    | .bad => runA c s ops
+    | .ok (s1, _, _, parts) => (runA c s1 ops).map fun sp => (sp.1, parts ++ sp.2)
+
 /-! ### the abstract machine: key-ordered association lists -/
 
 structure SSt where
